@@ -15,6 +15,7 @@ from sa.protocol import (
     ProtocolModel,
     consumer_traces,
     create_checkpoint_traces,
+    done_callback_traces,
     short,
     user_events,
     wrapper_traces,
@@ -28,64 +29,6 @@ BASE_ONLY = (BTE_FQ, SUSPEND_FQ, ORPHAN_FQ)
 
 def cls_construct(ci):
     return f"{ci.module.relpath.split('aws_durable_execution_sdk_python/')[-1]}:{ci.name}"
-
-
-def done_callback_traces(pm: ProtocolModel):
-    """ConcurrentExecutor._on_task_complete with future.result() enumerated over everything a branch can end with."""
-    prog = pm.prog
-    cex = prog.cls("concurrency.executor", "ConcurrentExecutor")
-    fn = cex.methods.get("_on_task_complete")
-    if fn is None:
-        raise AnalysisError("ConcurrentExecutor._on_task_complete not found")
-    outcomes = ["return", "builtins.Exception*", TIMED_SUSPEND_FQ, SUSPEND_FQ, ORPHAN_FQ, BTE_FQ]
-    counters = prog.cls("concurrency.models", "ExecutionCounters")
-
-    def h_result(it, recv, args, kwargs, node):
-        if not (isinstance(recv, Sym) and recv.k == "future"):
-            return NotImplemented
-        c = it.decide("future.result() outcome", len(outcomes), [short(o) for o in outcomes])
-        it.emit("RESULT", node, outcome=short(outcomes[c]))
-        if c == 0:
-            return Sym("branch_result")
-        raise _Raise(it.make_exc(outcomes[c], "branch"), it.site(node))
-
-    def h_cancelled(it, recv, args, kwargs, node):
-        if not (isinstance(recv, Sym) and recv.k == "future"):
-            return NotImplemented
-        r = it.decide("future.cancelled()", 2, [False, True]) == 1
-        return Const(r)
-
-    def h_set(it, recv, args, kwargs, node):
-        if "_completion_event" in recv.key():
-            it.emit("COMPLETION_SET", node)
-            return NONE
-        return NotImplemented
-
-    def h_should_complete(it, f, sv, a, k, n):
-        return Const(it.decide("counters.should_complete()", 2, [True, False]) == 0)
-
-    def h_should_suspend(it, f, sv, a, k, n):
-        r = it.decide("should_execution_suspend()", 2, [True, False]) == 0
-        res = Obj(prog.cls("concurrency.models", "SuspendResult"))
-        res.fields.update(should_suspend=Const(r), exception=Sym("suspend_exc"))
-        return res
-
-    hooks = {counters.methods["should_complete"].fq: h_should_complete,
-             cex.methods["should_execution_suspend"].fq: h_should_suspend}
-
-    def self_factory(it, state):
-        o = Obj(cex, label="cexec")
-        o.fields["counters"] = Sym("cexec.counters", TypeRef(classes=(counters.fq,)))
-        o.fields["_completion_event"] = Sym("cexec._completion_event", TypeRef(prim="ext:threading.Event"))
-        return o
-
-    def kw(it, state):
-        ews = prog.cls("concurrency.models", "ExecutableWithState")
-        return {"exe_state": Sym("exe_state", TypeRef(classes=(ews.fq,))), "future": Sym("future", TypeRef(prim="ext:Future")),
-                "scheduler": Sym("scheduler", TypeRef(classes=(prog.cls("concurrency.executor", "TimerScheduler").fq,)))}
-
-    return fn, pm.run_function(fn, self_factory, kw, cell=("_on_task_complete", ""), extra_hooks=hooks,
-                               ext_method_hooks={"result": h_result, "cancelled": h_cancelled, "set": h_set})
 
 
 def h_covers_bte(prog, fi, h) -> bool:
@@ -120,6 +63,13 @@ def build() -> Check:
     for t in fails:
         i = next(i for i, e in enumerate(t.events) if e.kind == "API" and e.data["outcome"] == "fails")
         after = t.events[i + 1:]
+        col_ev = [e for e in t.events[:i] if e.kind == "COLLECT" and e.data["items"]]
+        for it_ in (col_ev[-1].data["items_v"] if col_ev else []):
+            ev = it_.fields.get("completion_event")
+            if isinstance(ev, Obj):
+                sets = [s for s in after if s.kind == "EV_SET" and s.data.get("oid") == ev.oid]
+                if not sets or sets[0].data["error"] == "None":
+                    b_drain.append((f"{it_.key()} of the failed batch is not woken with the failure (its caller blocks for ever or believes the record was accepted)", t))
         for q in ("overflow", "main"):
             drained = [e for e in after if e.kind in ("Q_GET", "Q_EMPTY") and e.data["queue"] == q]
             if not drained:
